@@ -32,6 +32,32 @@ def load_known():
     return out
 
 
+def case_split_equal(a, b, max_conds=4):
+    """equality by case analysis over the (at most ``max_conds``) conditions of conditional sub-terms that mention no loop variable"""
+    import itertools
+    conds = []
+    for t in (a, b):
+        for x in T.walk(t):
+            if x[0] == 'gamma' and x[1][0] != 'const' and not any(y[0] == 'lv' for y in T.walk(x[1])):
+                c = x[1][1] if x[1][0] == 'not' else x[1]
+                if c not in conds:
+                    conds.append(c)
+    if not conds or len(conds) > max_conds:
+        return False
+    for vals in itertools.product((T.TRUE, T.FALSE), repeat=len(conds)):
+        m = dict(zip(conds, vals))
+
+        def f(y):
+            if y in m:
+                return m[y]
+            if y[0] == 'not' and y[1][0] == 'const':
+                return T.not_(y[1])
+            return None
+        if T.subst(a, f) != T.subst(b, f):
+            return False
+    return True
+
+
 class Report:
     def __init__(self, pid, tier, root):
         self.pid, self.tier, self.root = pid, tier, root
@@ -64,6 +90,11 @@ class Report:
         """normal-form equality of an implementation term with a specification term"""
         impl, spec = T.strip_nd(impl), T.strip_nd(spec)
         if impl == spec:
+            self.ok(rule, instance, site, found=impl)
+            return True
+        if impl is not None and spec is not None and case_split_equal(impl, spec):
+            # the same value under every valuation of the loop-independent conditions both terms branch on: `f(a if c else b)` and
+            # `f(a) if c else f(b)` are one definition written with the branch at different depths
             self.ok(rule, instance, site, found=impl)
             return True
         # A definitional rule certifies that the code is an instance of the documented definition.  A differing
